@@ -84,6 +84,16 @@ pub struct Profile {
     pub tune: Option<fn(&mut crate::generate::MutWeights, &mut Rng, usize)>,
     /// restrict families
     pub families: &'static [&'static str],
+    /// construct the initial object through a random entry point with random ConstructionOptions
+    pub random_ctor: bool,
+    /// per-mille probability that the constructor runs under class-A faults
+    pub ctor_fault_permille: u64,
+    /// never start from an empty triangulation
+    pub always_construct: bool,
+    /// per-mille probability of non-finite coordinates in generated insertions
+    pub nonfinite_permille: u64,
+    /// per-operation tick ceiling (0 = none)
+    pub tick_limit: u64,
 }
 
 impl Default for Profile {
@@ -97,6 +107,11 @@ impl Default for Profile {
             max_len: 14,
             tune: None,
             families: &["grid", "dyadic", "jitter", "cosph", "dyadic", "grid"],
+            random_ctor: false,
+            ctor_fault_permille: 0,
+            always_construct: false,
+            nonfinite_permille: 0,
+            tick_limit: 0,
         }
     }
 }
@@ -122,7 +137,7 @@ pub fn execute<K: SimKernel<D>, const D: usize>(
         faults: oprec.faults.clone(),
         knobs: oprec.knobs.clone(),
         uuid_seed: derive(header.run_seed, "uuid", oprec.idx),
-        tick_limit: 0,
+        tick_limit: header.params.get("tick_limit").copied().unwrap_or(0).max(0) as u64,
     };
     match &oprec.op {
         Op::New { obj, .. } | Op::Empty { obj, .. } => {
@@ -207,6 +222,7 @@ pub fn run<K: SimKernel<D>, const D: usize>(
     let rs = header.run_seed;
     let mut cfg = Rng::sub(rs, "cfg", 0);
     let mut gener = Gen::new(rs, D, &header.family, profile.thorough);
+    gener.nonfinite_permille = profile.nonfinite_permille;
     if let Some(tune) = profile.tune {
         let mut r = Rng::sub(rs, "tune", 0);
         tune(&mut gener.weights, &mut r, D);
@@ -231,18 +247,17 @@ pub fn run<K: SimKernel<D>, const D: usize>(
     let mut prologue: Vec<Op> = Vec::new();
     let tg = *cfg.pick(GUARANTEES);
     let maxv = gener.max_vertices;
-    let n0 = if cfg.chance(1, 4) { 0 } else { D + 1 + cfg.usize_below(maxv.saturating_sub(D + 1).max(1)) };
+    let n0 = if !profile.always_construct && cfg.chance(1, 4) { 0 } else { D + 1 + cfg.usize_below(maxv.saturating_sub(D + 1).max(1)) };
     if n0 == 0 {
         prologue.push(Op::Empty { obj: 0, tg: tg.to_string() });
     } else {
         let mut r = Rng::sub(rs, "init", 0);
-        prologue.push(Op::New {
-            obj: 0,
-            verts: gener.initial_vertices(&mut r, n0),
-            ctor: "guarantee".into(),
-            tg: tg.to_string(),
-            opts: crate::ops::Opts::default(),
-        });
+        let (ctor, opts) = if profile.random_ctor {
+            ((*r.pick(&["options_stats", "options_stats", "options", "guarantee", "kernel", "builder"])).to_string(), gener.random_opts(&mut r))
+        } else {
+            ("guarantee".to_string(), crate::ops::Opts::default())
+        };
+        prologue.push(Op::New { obj: 0, verts: gener.initial_vertices(&mut r, n0), ctor, tg: tg.to_string(), opts });
     }
     for (which, values) in [
         ("validation", &["Never", "OnSuspicion", "Always", "DebugOnly"][..]),
@@ -261,7 +276,31 @@ pub fn run<K: SimKernel<D>, const D: usize>(
         let oprec: OpRec = if let Some(list) = replay {
             list[i].clone()
         } else if i < prologue.len() {
-            OpRec { idx: i as u64, op: prologue[i].clone(), faults: Vec::new(), knobs: knobs.clone() }
+            let mut faults: Vec<(String, u64)> = Vec::new();
+            if i == 0 && cfg.below(1000) < profile.ctor_fault_permille {
+                let mut r = Rng::sub(rs, "ctor-faults", 0);
+                let n = 1 + r.usize_below(3);
+                for _ in 0..n {
+                    match r.below(6) {
+                        0 => faults.push(("insert.attempt.entry".into(), r.below(40))),
+                        1 => faults.push(("insert.validate_after".into(), r.below(12))),
+                        2 => {
+                            let k = r.below(30);
+                            for j in 0..=r.below(3) {
+                                faults.push(("repair.attempt.nonconvergent".into(), k + j));
+                            }
+                        }
+                        3 => {
+                            for j in 0..=r.below(3) {
+                                faults.push(("bulk.final_check.fail".into(), j));
+                            }
+                        }
+                        4 => faults.push(("repair.postcondition.fail".into(), r.below(20))),
+                        _ => faults.push(("insert.outside.cavity_degenerate".into(), r.below(6))),
+                    }
+                }
+            }
+            OpRec { idx: i as u64, op: prologue[i].clone(), faults, knobs: knobs.clone() }
         } else {
             let idx = i as u64;
             let mut r = Rng::sub(rs, "sched", idx);
